@@ -91,6 +91,9 @@ type Scenario struct {
 	FaultFree  bool           `json:"fault_free"`
 	RecvErrAt  []int          `json:"recv_err_at,omitempty"` // k-th Receive call fails (missing .part)
 	Extra      map[string]any `json:"extra,omitempty"`
+	PeerFiles  []PeerFile     `json:"peer_files,omitempty"`
+	Peer       []PeerOp       `json:"peer,omitempty"`
+	MaxInFlight int           `json:"max_in_flight,omitempty"`
 }
 
 type gen struct {
